@@ -80,6 +80,11 @@ func (o *OpenAPI3Importer) Configure(arg *ImporterArg) (Importer, error) {
 	return o, nil
 }
 
+// WithFs sets the filesystem from which files that the specification refers to are read.
+func (o *OpenAPI3Importer) WithFs(fs afero.Fs) {
+	o.fs = fs
+}
+
 func NewOpenAPI3Loader(logger *logrus.Logger, fs afero.Fs) *openapi3.Loader {
 	loader := openapi3.NewLoader()
 	loader.IsExternalRefsAllowed = true
